@@ -6,6 +6,8 @@ CONSTANTS
   MaxReads = 0
   OccSet = {TRUE}
   BatchSet = {2}
+  PathSet = {"async"}
+  MaxPauses = 0
   Kinds = {"waive", "stale", "equal", "future"}
   Pols = {"leader"}
   Mut = "none"
